@@ -155,6 +155,7 @@ func Inputs(s *rs.Schema, t *rs.Type, quick bool) []input {
 // Run executes C09 (each engine vs the reference) and, when lockstep is set, C13's comparison
 // (bindnode vs generated on every input) over the same executions.
 func Run(r *core.Run, engines []typed.Engine, fams []*rs.Schema, lockstep bool) {
+	typed.AllVariants = !r.Quick()
 	type job struct {
 		s *rs.Schema
 		t string
@@ -180,55 +181,61 @@ func Run(r *core.Run, engines []typed.Engine, fams []*rs.Schema, lockstep bool) 
 				f      core.Finding
 			}
 			perEngine := map[string]map[string]*agg{}
-			for _, route := range typed.FeedRoutes {
-				if route == "dagcbor" && !in.repr {
-					continue // bytes are decoded through the representation builder
-				}
-				var outs []typed.Outcome
-				for _, eng := range engines {
-					if eng.Proto(j.s, "Int", false) == nil {
-						continue
+			for _, base := range typed.FeedRoutes {
+				for _, route := range typed.FeedVariants(base) {
+					if route == "dagcbor" && !in.repr {
+						continue // bytes are decoded through the representation builder
 					}
-					c := Case{eng.Name(), j.s.Name, j.t, in.repr, route, in.v, in.mut}
-					fs, outcome, o := Check(eng, j.s, c)
-					lc.Transitions++
-					lc.Traces++
-					lc.Evals++
-					oc[eng.Name()+"/"+strings.SplitN(outcome, ":", 2)[0]]++
-					if in.mut != "conforming" {
-						nt++
+					var outs []typed.Outcome
+					for _, eng := range engines {
+						if eng.Proto(j.s, "Int", false) == nil {
+							continue
+						}
+						c := Case{eng.Name(), j.s.Name, j.t, in.repr, route, in.v, in.mut}
+						fs, outcome, o := Check(eng, j.s, c)
+						lc.Transitions++
+						lc.Traces++
+						lc.Evals++
+						oc[eng.Name()+"/"+strings.SplitN(outcome, ":", 2)[0]]++
+						if in.mut != "conforming" {
+							nt++
+						}
+						if !lockstep {
+							for _, f := range fs {
+								m := perEngine[eng.Name()]
+								if m == nil {
+									m = map[string]*agg{}
+									perEngine[eng.Name()] = m
+								}
+								a := m[f.Sig]
+								if a == nil {
+									a = &agg{c: c, f: f}
+									m[f.Sig] = a
+								}
+								if len(a.routes) == 0 || a.routes[len(a.routes)-1] != base {
+									a.routes = append(a.routes, base)
+								}
+							}
+						}
+						outs = append(outs, o)
 					}
-					if !lockstep {
-						for _, f := range fs {
-							m := perEngine[eng.Name()]
+					if lockstep && len(outs) == 2 {
+						c := Case{"bindnode×generated", j.s.Name, j.t, in.repr, route, in.v, in.mut}
+						for _, f := range Lockstep(j.s, t, c, outs[0], outs[1]) {
+							m := perEngine["lockstep"]
 							if m == nil {
 								m = map[string]*agg{}
-								perEngine[eng.Name()] = m
+								perEngine["lockstep"] = m
 							}
 							a := m[f.Sig]
 							if a == nil {
 								a = &agg{c: c, f: f}
 								m[f.Sig] = a
 							}
-							a.routes = append(a.routes, route)
+							if len(a.routes) == 0 || a.routes[len(a.routes)-1] != base {
+								a.routes = append(a.routes, base)
+							}
 						}
-					}
-					outs = append(outs, o)
-				}
-				if lockstep && len(outs) == 2 {
-					c := Case{"bindnode×generated", j.s.Name, j.t, in.repr, route, in.v, in.mut}
-					for _, f := range Lockstep(j.s, t, c, outs[0], outs[1]) {
-						m := perEngine["lockstep"]
-						if m == nil {
-							m = map[string]*agg{}
-							perEngine["lockstep"] = m
-						}
-						a := m[f.Sig]
-						if a == nil {
-							a = &agg{c: c, f: f}
-							m[f.Sig] = a
-						}
-						a.routes = append(a.routes, route)
 					}
 				}
 			}
